@@ -15,7 +15,7 @@ var notApplicableReason = map[string]string{}
 func genManifest() {
 	type check map[string]interface{}
 	var checks []check
-	var na []map[string]string
+	na := []map[string]string{}
 	var served []string
 	for _, id := range allIDs {
 		p := findProperty(id)
